@@ -20,10 +20,13 @@ def handle (op : String) (c i : Json) : Except String (Json × String) := do
     let ws := wiresharkField n s
     let csvJ (fmt : String) := let (b, t, o, g) := csvColumns fmt s; J.ofList [J.ofInt b, J.ofInt t, Json.str o, Json.str g]
     let m := J.obj [("scapy", J.ofList [J.ofInt (dbcStartOf s), J.ofNat s.size, Json.str (scapyFmt s)]),
-                    ("fibex", J.ofList [J.ofInt (dbcStartOf s), Json.bool (fibexHighLow s), J.ofNat s.size]),
+                    ("fibex", J.ofList [J.ofInt (dbcStartOf s), Json.bool (fibexHighLow s), J.ofNat s.size,
+                                        match fibexBaseType s with | some t => Json.str t | none => .null]),
                     ("canard", J.ofList [J.ofInt (lsbStartOf s), J.ofNat s.size]),
                     ("csv", J.obj [("msb", csvJ "msb"), ("msbreverse", csvJ "msbreverse"), ("lsb", csvJ "lsb")]),
-                    ("ws", J.ofList [Json.str ws.1, J.ofNat ws.2.1, J.ofNat ws.2.2, J.ofOptNat (wiresharkSignFix s)])]
+                    ("ws", J.ofList [Json.str ws.1, J.ofNat ws.2.1, J.ofNat ws.2.2, J.ofOptNat (wiresharkSignFix s),
+                                     if (wiresharkSignFix s).isSome then Json.str (wiresharkProbe n s).1 else .null,
+                                     if (wiresharkSignFix s).isSome then J.ofNat (wiresharkProbe n s).2 else .null])]
     -- spec: read each record with the tool's convention
     let chk (name : String) (ok : Except String Bool) : Except String (Option String) := do
       pure (if (← ok) then none else some s!"fail: the {name} record does not select the signal's payload bits / type")
@@ -36,7 +39,9 @@ def handle (op : String) (c i : Json) : Except String (Json × String) := do
     let r2 ← chk "FIBEX" (do
       let a ← J.key i "fibex"
       let p ← J.nat (← J.idx a 0); let hl ← J.bool (← J.idx a 1); let sz ← J.nat (← J.idx a 2)
-      pure (sz == s.size && hl == !s.little && sameAddrs s (Spec.dbcAddr (!hl) p sz)))
+      let tj ← J.idx a 3
+      let ty ← if J.isNull tj then pure none else some <$> J.str tj
+      pure (sz == s.size && hl == !s.little && sameAddrs s (Spec.dbcAddr (!hl) p sz) && Spec.fibexTypeOk ty s.size s.signed s.isFloat))
     let r3 ← chk "Canard" (do
       let a ← J.key i "canard"
       let p ← J.nat (← J.idx a 0); let sz ← J.nat (← J.idx a 1)
@@ -55,8 +60,11 @@ def handle (op : String) (c i : Json) : Except String (Json × String) := do
       let a ← J.key i "ws"
       let which ← J.str (← J.idx a 0); let off ← J.nat (← J.idx a 1); let len ← J.nat (← J.idx a 2)
       let fix ← J.optNat (← J.idx a 3)
+      let pwj ← J.idx a 4
+      let pw ← if J.isNull pwj then pure which else J.str pwj
+      let po ← J.optNat (← J.idx a 5)
       let want := Spec.valueOf (DC.specSig { s with isFloat := false }) probe
-      pure (s.isFloat || Spec.wiresharkValue probe which off len fix == want))
+      pure (s.isFloat || Spec.wiresharkValueProbe probe which off len pw (po.getD off) fix == want))
     let bad := [r1, r2, r3, r4, r5].filterMap id
     pure (m, match bad with
       | [] => "ok"
